@@ -179,6 +179,12 @@ fn main() {
             1,
             atom,
         ),
+        s("shm/posix.rs", "libc::shm_open(", "VS::shm::shm_open(", 1, "POSIX shm object modelled in process memory (vsched::shm)"),
+        s("shm/posix.rs", "libc::shm_unlink(", "VS::shm::shm_unlink(", 1, "POSIX shm object modelled in process memory (vsched::shm)"),
+        s("shm/posix.rs", "libc::mmap(", "VS::shm::mmap(", 1, "POSIX shm object modelled in process memory (vsched::shm)"),
+        s("shm/posix.rs", "libc::munmap(", "VS::shm::munmap(", 1, "POSIX shm object modelled in process memory (vsched::shm)"),
+        s("shm/posix.rs", "libc::close(", "VS::shm::close(", 1, "POSIX shm object modelled in process memory (vsched::shm)"),
+        s("shm/posix.rs", "libc::ftruncate(", "VS::shm::ftruncate(", 1, "POSIX shm object modelled in process memory (vsched::shm)"),
         s(
             "shm/shared.rs",
             "    sync::atomic::{AtomicU32, AtomicU64, AtomicUsize, Ordering},\n};\n",
@@ -232,6 +238,16 @@ fn main() {
             let allowed = if rels == "mutex.rs" { 1 } else { 0 };
             if left != allowed {
                 die(format!("{rels}: {left} un-instrumented mention(s) of `sync::atomic` remain (allowed {allowed})"));
+            }
+        }
+        if rels == "shm/posix.rs" {
+            // every libc *function* of posix.rs must be modelled (constants and types may stay)
+            for (i, _) in text.match_indices("libc::") {
+                let rest = &text[i + 6..];
+                let name: String = rest.chars().take_while(|c| c.is_ascii_alphanumeric() || *c == '_').collect();
+                if rest[name.len()..].starts_with('(') {
+                    die(format!("shm/posix.rs: un-modelled libc call `libc::{name}(`"));
+                }
             }
         }
         let dst = afc_out.join(rel);
@@ -331,12 +347,6 @@ pub mod vexport {
     let code: String = t.lines().filter(|l| !l.trim_start().starts_with("//")).collect::<Vec<_>>().join("\n");
     if code.contains("sync::atomic") || code.contains("std::sync::") || code.contains("std::thread") {
         die("repr.rs: un-instrumented mention of `sync::atomic`/`std::sync::`/`std::thread` remains".into());
-    }
-    for (needle, n) in [("atomic::AtomicUsize", 3usize), ("atomic::Ordering::", 3), ("atomic::fence(", 1)] {
-        let c = t.matches(needle).count();
-        if c != n {
-            die(format!("repr.rs: expected {n} use(s) of `{needle}`, found {c}"));
-        }
     }
     let text_out = out.join("text");
     let _ = fs::remove_dir_all(&text_out);
